@@ -67,7 +67,7 @@ def single(repo, report):
     def exp(rv):
         return "rc" if (rv["d"] > 0 and rv["rc_has"]) else "fw"
 
-    odd = sorted({k for r in rows for k in r.valuation if k.startswith("sign:") and ".score])" in k and k != roles["d"].key})
+    odd = sorted({k for r in rows for k in r.valuation if k.startswith("sign:") and ".score" in k and k != roles["d"].key})
     if odd:
         mism, n = [{"inputs": {}, "code": f"compares {odd[0][5:]} with 0", "expected": f"compares {roles['d'].key[5:]} with 0 (reverse score - forward score)"}], len(rows)
     else:
@@ -185,7 +185,7 @@ def paired(repo, report):
             ign = [k for r in sub for k in r.valuation]
             # the decision must compare the two TOTAL scores: any other comparison of score sums is a wrong decision
             # quantity (a recognised construct with a wrong fact), not an unknown shape
-            odd = sorted({k for r in sub for k in r.valuation if k.startswith("sign:") and ".score])" in k and k != roles["d"].key})
+            odd = sorted({k for r in sub for k in r.valuation if k.startswith("sign:") and ".score" in k and k != roles["d"].key})
             if odd:
                 bad_tbl.append({"inputs": {"cutter1_none": n1, "cutter2_none": n2}, "code": f"compares {odd[0][5:]} with 0", "expected": f"compares {roles['d'].key[5:]} with 0 (swapped total - unswapped total)"})
                 continue
